@@ -14,6 +14,9 @@ impl InstructionGenerator {
         self.generate_eval_select_case_expr(expr, pos);
         self.generate_case_blocks(case_blocks, else_block.is_some(), pos);
         self.generate_else_block(else_block, pos);
+        // END SELECT is a statement boundary of its own: RESUME NEXT after an error in the last
+        // statement of the CASE ELSE block must still pop the selector below
+        self.mark_statement_address();
         // every path ends here, after a matching CASE block as well as when nothing matched
         self.label(labels::end_select(), pos);
         // need to pop value from stack because it was pushed by `generate_eval_select_case_expr`
